@@ -26,8 +26,16 @@ size_t   g_regs;    /* number of id_map_register calls (stub accounting)        
 /* Implementation limits made explicit (see spec.json "assumes"): the uint32
  * arithmetic of id_resize (count * 2, new_cap * 2 / 3) is exact only while
  * the table has at most 2^30 slots, i.e. at most 2^29 live ids. */
+#ifdef IDM_MAXCAP_OVERRIDE
+/* only for the extra trace run that looks for a SMALL counterexample after an
+ * obligation has failed (spec.json replay_defines); the deciding run has the
+ * real limits */
+#define IDM_MAXCAP ((uint32_t) IDM_MAXCAP_OVERRIDE)
+#define IDM_MAXCOUNT ((uint32_t) IDM_MAXCAP_OVERRIDE / 2)
+#else
 #define IDM_MAXCAP ((uint32_t) 1 << 30)
 #define IDM_MAXCOUNT ((uint32_t) 1 << 29)
+#endif
 
 /* load thresholds that belong to a capacity (constants 8, 1/8, 2/3, 5 are the
  * documented tuning of the table) */
@@ -106,5 +114,30 @@ size_t   g_regs;    /* number of id_map_register calls (stub accounting)        
 	uint64_t vp_in_min = (m)->id_min_val, vp_in_max = (m)->id_max_val,   \
 	         vp_in_dyn = (m)->id_dyn_val, vp_in_count = (m)->id_count,   \
 	         vp_in_cap = (m)->id_cap, vp_in_random = (m)->id_random
+
+/* full pre-state snapshot for the native replay driver (modules/idhash/replay.c): every
+ * scalar of the map and the first 16 slots (key, val != NULL, skips), plain locals woven at
+ * function entry.  CBMC's per-dereference checks are switched off inside the snapshot so
+ * that it adds no proof obligations (slot reads are guarded by i < id_cap). */
+#define VP_SNAP_BEGIN                                                              \
+	_Pragma("CPROVER check push") _Pragma("CPROVER check disable \"pointer\"")   \
+	_Pragma("CPROVER check disable \"bounds\"")                                  \
+	_Pragma("CPROVER check disable \"pointer-primitive\"")                       \
+	_Pragma("CPROVER check disable \"pointer-overflow\"")
+#define VP_SNAP_END _Pragma("CPROVER check pop")
+#define VP_SNAP_IDM_SLOT(m, i)                                                                  \
+	uint64_t vp_in_k##i = ((uint32_t) (i) < (m)->id_cap) ? (m)->id_entries[i].key : (uint64_t) 0; \
+	uint64_t vp_in_v##i = ((uint32_t) (i) < (m)->id_cap) ? (uint64_t) ((m)->id_entries[i].val != NULL) : (uint64_t) 0; \
+	uint64_t vp_in_s##i = ((uint32_t) (i) < (m)->id_cap) ? (uint64_t) (m)->id_entries[i].skips : (uint64_t) 0
+#define VP_SNAP_IDM_FULL(m)                                                          \
+	VP_SNAP_BEGIN                                                                    \
+	VP_SNAP_IDM(m);                                                                  \
+	uint64_t vp_in_load = (m)->id_load, vp_in_minload = (m)->id_min_load,            \
+	         vp_in_maxload = (m)->id_max_load, vp_in_static = (m)->id_static;        \
+	VP_SNAP_IDM_SLOT(m, 0); VP_SNAP_IDM_SLOT(m, 1); VP_SNAP_IDM_SLOT(m, 2); VP_SNAP_IDM_SLOT(m, 3); \
+	VP_SNAP_IDM_SLOT(m, 4); VP_SNAP_IDM_SLOT(m, 5); VP_SNAP_IDM_SLOT(m, 6); VP_SNAP_IDM_SLOT(m, 7); \
+	VP_SNAP_IDM_SLOT(m, 8); VP_SNAP_IDM_SLOT(m, 9); VP_SNAP_IDM_SLOT(m, 10); VP_SNAP_IDM_SLOT(m, 11); \
+	VP_SNAP_IDM_SLOT(m, 12); VP_SNAP_IDM_SLOT(m, 13); VP_SNAP_IDM_SLOT(m, 14); VP_SNAP_IDM_SLOT(m, 15); \
+	VP_SNAP_END
 
 #endif
